@@ -113,12 +113,12 @@ Proof.
         destruct (gi_pend _ _ (inv_gi _ _ _ K) k Hpe) as [L|[Hc Hph]]; [congruence|].
         unfold acc_upd. cbn [mon_in]. rewrite Hc, Nat.eqb_refl. cbn [andb].
         destruct a; cbn [allowed_of mok].
-        -- rewrite orb_true_r. apply on_auth_allowed_Inv. apply W_init. rewrite <- Hc.
+        -- rewrite orb_true_r. rewrite andb_false_r. apply on_auth_allowed_Inv. apply W_init. rewrite <- Hc.
            split; [eapply Inv_accept; eauto|]. cbn; auto.
-        -- rewrite orb_true_r. apply on_auth_allowed_Inv. apply W_init. rewrite <- Hc.
+        -- rewrite orb_true_r. rewrite andb_false_r. apply on_auth_allowed_Inv. apply W_init. rewrite <- Hc.
            split; [eapply Inv_accept; eauto|]. cbn; auto.
-        -- apply on_auth_denied_Inv; auto. apply W_init. apply Inv_acc_mono; auto.
-        -- apply on_auth_denied_Inv; auto. apply W_init. apply Inv_acc_mono; auto.
+        -- rewrite Hv. cbn [andb negb]. apply terminate_T. apply on_auth_denied_Inv; auto. apply W_init. apply Inv_acc_mono; auto.
+        -- rewrite Hv. cbn [andb negb]. apply terminate_T. apply on_auth_denied_Inv; auto. apply W_init. apply Inv_acc_mono; auto.
     + cbn [fst snd mon_outs]. eexists; split; [reflexivity|]. apply SInv_mon_in; auto.
   - (* timer *)
     apply on_slot_step.
